@@ -109,6 +109,8 @@ for _cls, _mod in (('Client', 'client'), ('AsyncClient', 'async_client')):
               "old(self.state) != 'connected', events == old(events))", props=['C08'])
     c.ensures('never-connects', "implies(old(self.state) != 'connected', "
               "self.state != 'connected')", props=['C08'])
+    c.ensures('state-changes-only-on-close', "implies(pkt.packet_type != 1, "
+              "self.state == old(self.state) and self.sid == old(self.sid))", props=['C08'])
     c.ensures('client-stays-wf', "(self.state == 'connected' or self.state == 'disconnecting' or "
               "self.state == 'disconnected') and implies(self.state == 'connected', "
               "self.queue.unf >= len(self.queue.items))")
@@ -235,11 +237,13 @@ for _cls, _mod in (('Client', 'client'), ('AsyncClient', 'async_client')):
     c.requires("isinstance(self.ping_interval, float) and isinstance(self.ping_timeout, float) and "
                "isinstance(self.base_url, str)", 'timing-adopted-from-open')
     c.ensures('connection-is-over', "self.state != 'connected'", props=['C08'])
-    c.ensures('at-most-one-disconnect-event-with-a-true-reason', 'implies(' + DISC_H + ", "
-              "events == old(events) or last_event_is(events, old(events), "
+    # (sequential model: nothing but this loop changes the client's state while it runs)
+    c.ensures('exactly-one-disconnect-event-with-a-true-reason', 'implies(' + DISC_H + ", "
+              "(old(self.state) != 'connected' and events == old(events)) or "
+              "(old(self.state) == 'connected' and (last_event_is(events, old(events), "
               "self.handlers['disconnect'], 1, 'transport error', None) or "
               "last_event_is(events, old(events), self.handlers['disconnect'], 1, "
-              "'server disconnect', None))", props=['C08'])
+              "'server disconnect', None))))", props=['C08'])
     # the connection this loop ends itself is reported once, as a transport error, before the reset
     c.check_before('self._reset()' if _cls == 'Client' else 'await self._reset()', 'transport-error-event-fired-before-reset', 'implies(' + DISC_H +
                    ", last_event_is(events, old(events), self.handlers['disconnect'], 1, "
@@ -253,20 +257,69 @@ for _cls, _mod in (('Client', 'client'), ('AsyncClient', 'async_client')):
         ('wf', "(self.state == 'connected' or self.state == 'disconnecting' or "
          "self.state == 'disconnected') and self.read_loop_task is not None and "
          "implies(self.state == 'connected', self.queue.unf >= len(self.queue.items))"),
-        ('no-event-while-connected', "implies(self.state == 'connected', events == old(events))"),
+        ('no-event-while-connected', "implies(self.state == 'connected', events == old(events) "
+         "and old(self.state) == 'connected')"),
         ('ended-by-close-only', 'implies(' + DISC_H + " and self.state != 'connected', "
-         "events == old(events) or last_event_is(events, old(events), "
-         "self.handlers['disconnect'], 1, 'server disconnect', None))")],
+         "(old(self.state) != 'connected' and events == old(events)) or "
+         "(old(self.state) == 'connected' and last_event_is(events, old(events), "
+         "self.handlers['disconnect'], 1, 'server disconnect', None)))")],
         modifies=['r', 'p', 'pkt'] + R_MOD)
     c.loop(1, index='j', invariants=[
         ('wf', "(self.state == 'connected' or self.state == 'disconnecting' or "
          "self.state == 'disconnected') and self.read_loop_task is not None and "
          "implies(self.state == 'connected', self.queue.unf >= len(self.queue.items))"),
-        ('no-event-while-connected', "implies(self.state == 'connected', events == old(events))"),
+        ('no-event-while-connected', "implies(self.state == 'connected', events == old(events) "
+         "and old(self.state) == 'connected')"),
         ('ended-by-close-only', 'implies(' + DISC_H + " and self.state != 'connected', "
-         "events == old(events) or last_event_is(events, old(events), "
-         "self.handlers['disconnect'], 1, 'server disconnect', None))"),
+         "(old(self.state) != 'connected' and events == old(events)) or "
+         "(old(self.state) == 'connected' and last_event_is(events, old(events), "
+         "self.handlers['disconnect'], 1, 'server disconnect', None)))"),
         ('decoded-packets', 'forall(lambda k: p.packets[k] is not None and '
          '0 <= p.packets[k].packet_type and p.packets[k].packet_type <= 9 and '
          '(p.packets[k].packet_type == 4 or not is_bin(p.packets[k].data)), 0, len(p.packets))')],
         modifies=['pkt'] + R_MOD)
+
+# ------------------------------------------------------------ the WebSocket read loop (C08)
+for _cls, _mod in (('Client', 'client'), ('AsyncClient', 'async_client')):
+    c = REG.contract('%s.%s._read_loop_websocket' % (_mod, _cls), props=['C08', 'C09'])
+    c.param('self', Ref(_cls))
+    c.requires("self.queue is not None and self.queue.unf >= len(self.queue.items) and "
+               "(self.state == 'connected' or self.state == 'disconnecting' or "
+               "self.state == 'disconnected') and self.read_loop_task is not None and "
+               "self.ws is not None", 'client-wf')
+    if _cls == 'Client':
+        c.abstract('if type(e) is OSError and e.errno == 9:',
+                   'chooses between two log messages only')
+    else:
+        c.abstract("self.logger.warning( 'Server sent %s packet data %s, aborting',",
+                   'log message only (names the aiohttp message type)')
+        c.requires("isinstance(self.ping_interval, float) and isinstance(self.ping_timeout, float)",
+                   'timing-adopted-from-open')
+    c.ensures('connection-is-over', "self.state != 'connected'", props=['C08'])
+    # (sequential model: nothing but this loop changes the client's state while it runs)
+    c.ensures('exactly-one-disconnect-event-with-a-true-reason', 'implies(' + DISC_H + ", "
+              "(old(self.state) != 'connected' and events == old(events)) or "
+              "(old(self.state) == 'connected' and (last_event_is(events, old(events), "
+              "self.handlers['disconnect'], 1, 'transport error', None) or "
+              "last_event_is(events, old(events), self.handlers['disconnect'], 1, "
+              "'server disconnect', None))))", props=['C08'])
+    c.check_before('self._reset()' if _cls == 'Client' else 'await self._reset()',
+                   'transport-error-event-fired-before-reset', 'implies(' + DISC_H +
+                   ", last_event_is(events, old(events), self.handlers['disconnect'], 1, "
+                   "'transport error', None))", props=['C08'])
+    RW_MOD = ['self.state', 'self.sid', 'self.queue.items', 'self.queue.unf', 'self.queue.accepted',
+              'self.queue.put_none', 'ghost.events', 'ghost.hresults', 'ghost.spawned', 'ghost.now',
+              'ghost.ws_log', 'new Packet.binary', 'new Packet.packet_type', 'new Packet.data',
+              'new Packet.encode_cache']
+    c.modifies(*RW_MOD)
+    c.loop(0, invariants=[
+        ('wf', "(self.state == 'connected' or self.state == 'disconnecting' or "
+         "self.state == 'disconnected') and self.read_loop_task is not None and "
+         "implies(self.state == 'connected', self.queue.unf >= len(self.queue.items))"),
+        ('no-event-while-connected', "implies(self.state == 'connected', events == old(events) "
+         "and old(self.state) == 'connected')"),
+        ('ended-by-close-only', 'implies(' + DISC_H + " and self.state != 'connected', "
+         "(old(self.state) != 'connected' and events == old(events)) or "
+         "(old(self.state) == 'connected' and last_event_is(events, old(events), "
+         "self.handlers['disconnect'], 1, 'server disconnect', None)))")],
+        modifies=['p', 'pkt', 'e'] + RW_MOD)
